@@ -462,6 +462,7 @@ class ScopeRender:
         stack = ["file"]
         plist = None
         pending_goto = []      # (marker, name, copy) of the current function
+        frames = []            # open statement / substatement scopes: their text is assembled when they close
         C = range(self.copies)
         for K, it in enumerate(self.prog):
             op = it["op"]
@@ -476,6 +477,10 @@ class ScopeRender:
                     how = "func"
                 elif how == "pscope":
                     self._groups.append((it["role"], []))
+                elif how == "stmt":
+                    frames.append({"how": "stmt", "form": it["form"], "ctrl": [], "subs": []})
+                elif how == "sub":
+                    frames.append({"how": "sub", "parts": [], "nested": None})
                 elif how == "block":
                     out.append("{")
                 elif how == "proto":
@@ -505,6 +510,29 @@ class ScopeRender:
                     out.append("}")
                 elif how == "pscope":
                     pass
+                elif how == "sub":       # one unbraced statement: a comma expression, a nested statement, or the null statement
+                    fr = frames.pop()
+                    frames[-1]["subs"].append(fr["nested"] or (", ".join(fr["parts"]) + ";" if fr["parts"] else ";"))
+                elif how == "stmt":
+                    fr = frames.pop()
+                    ctrl, subs, form = fr["ctrl"], fr["subs"], fr["form"]
+                    cond = "(%s)" % ", ".join(ctrl + ["0"])
+                    if form == "if":
+                        text = "if (%s)\n%s" % (cond, subs[0]) + ("\nelse\n%s" % subs[1] if len(subs) > 1 else "")
+                    elif form == "while":
+                        text = "while (%s)\n%s" % (cond, subs[0])
+                    elif form == "switch":
+                        text = "switch (%s)\n%s" % (cond, subs[0])
+                    elif form == "do":
+                        text = "do\n%s\nwhile (%s);" % (subs[0], cond)
+                    else:                # for (E1; E2; E3) with the items split in textual order over the three clauses
+                        n = len(ctrl)
+                        a, b = (n + 2) // 3, (2 * n + 2) // 3
+                        text = "for (%s; %s; %s)\n%s" % (", ".join(ctrl[:a]), ", ".join(ctrl[a:b] + ["0"]), ", ".join(ctrl[b:]), subs[0])
+                    if frames and frames[-1]["how"] == "sub":
+                        frames[-1]["nested"] = text
+                    else:
+                        out.append(text)
                 elif how == "func":
                     lab = {x["name"]: x["id"] for x in it["labels"]}
                     for g, n, c in pending_goto:
@@ -517,6 +545,15 @@ class ScopeRender:
                 for c in C:
                     n, u = self.nm(it["name"], c), self.U(it["id"], c)
                     k = it["kind"]
+                    if top in ("stmt", "sub"):
+                        # declared by a type name inside an expression: sizeof / _Alignof / cast / compound literal
+                        tn = "enum { %s = %d }" % (n, u) if k == "enum" else "%s %s { char m[%d]; }" % (k, n, u)
+                        v = (K + c) % 4
+                        part = ("(void)sizeof(%s)" % tn if v == 0 else "(void)_Alignof(%s)" % tn if v == 1 else
+                                ("(void)(%s)0" if k == "enum" else "(void)(%s *)0") % tn if v == 2 else
+                                ("(void)(%s){0}" if k == "enum" else "(void)(%s){{0}}") % tn)
+                        frames[-1]["ctrl" if top == "stmt" else "parts"].append(part)
+                        continue
                     if op == "fwd":
                         out.append("%s %s;" % (k, n))
                     elif k in ("struct", "union"):
@@ -560,11 +597,21 @@ class ScopeRender:
                         continue
                     name = "chk_%d_%d" % (K, c)
                     self.expect[name] = u
+                    if top in ("stmt", "sub"):
+                        cid = len(self.callids) + 1
+                        self.callids[cid] = name
+                        dst = frames[-1]["ctrl" if top == "stmt" else "parts"]
+                        dst.append("%s(%d, %s)" % ("usei" if it["kind"] in ("enum", "macro", "fmacro") else "usel", cid, e))
+                        if self.audit:
+                            dst.append("(void)sizeof(char[((%s) == %d) ? 1 : -1])" % (e, u))
+                        continue
                     if top != "file" and (K + c) % 2 == 1:
                         # observed as a call argument: puts no identifier into the scope the lookup starts from
                         cid = len(self.callids) + 1
                         self.callids[cid] = name
                         out.append("%s(%d, %s);" % ("usei" if it["kind"] in ("enum", "macro", "fmacro") else "usel", cid, e))
+                        if self.audit:
+                            out.append('_Static_assert((%s) == %d, "%s");' % (e, u, name))
                     else:
                         out.append("%sint %s = %s;" % ("" if top == "file" else "static ", name, e))
                     if self.audit:
@@ -835,6 +882,13 @@ def scope_check(ctx, objdir, hooks, exe):
     if not any(it.get("how") == "funcx" for c in fx for it in c["prog"]):
         raise vlib.MachineryError("MC_CScope_fx generated no multi-declarator function definition")
     scope_programs(ctx, objdir, exe, fx, "funcx", audit_n=40 if q else 300)
+    # selection / iteration statements with unbraced substatements: each substatement and the statement are blocks
+    r = ctx.tlc_must_pass("CScope", "MC_CScope_stmt.cfg", workers=2, simulate=30 if q else 250, depth=170, timeout=1200)
+    st = [json.loads(v) for v in r.vcases]
+    forms = set(it.get("form") for c in st for it in c["prog"] if it.get("how") == "stmt" and it["op"] == "open")
+    if forms != {"if", "while", "do", "switch", "forx"}:
+        raise vlib.MachineryError("MC_CScope_stmt did not generate every statement form: %s" % forms)
+    scope_programs(ctx, objdir, exe, st, "stmt", audit_n=50 if q else 300)
     # 200-deep nesting
     r = ctx.tlc_must_pass("CScope", "MC_CScope_deep.cfg", workers=2, simulate=1 if q else 4, depth=8000, timeout=1200)
     deep = [json.loads(v) for v in r.vcases]
@@ -936,7 +990,9 @@ def run(ctx):
             for m in re.finditer(r"^<(\w+) line \d+, col \d+ to line \d+, col \d+ of module (\w+) \((\d+) \d+ \d+ \d+\)>: (\d+):(\d+)", r.out, re.M):
                 cov["%s@%s:%s" % (m.group(1), m.group(2), m.group(3))] = (int(m.group(4)), int(m.group(5)))   # disjuncts of a Next without own name
             r.coverage = cov
-            untaken = [a for a, (found, gen) in r.coverage.items() if gen == 0 and a.split("@")[0] not in ("Turn",)]   # Turn: Deep only
+            untaken = [a for a, (found, gen) in r.coverage.items() if gen == 0 and a.split("@")[0] not in ("Turn", "OpenFuncX", "OpenStmt", "OpenSub", "CloseSub", "CloseStmt")]
+            # Turn: Deep only; OpenFuncX / statement scopes: enabled only in MC_CScope_fx / _stmt (simulation), where
+            # scope_check itself refuses to continue unless every shape / statement form was generated
             ctx.cov.setdefault("untaken_actions", []).extend(untaken)
             ctx.cov.setdefault("actions_taken", {}).update({a: gen for a, (found, gen) in r.coverage.items()})
             if untaken:
